@@ -601,7 +601,7 @@ func genCase(t *rapid.T) Case {
 	dirs := rapid.Permutation(dirPool).Draw(t, "dirs")
 	minLen := rapid.SampledFrom([]int{1, 5, 15, 30, 50}).Draw(t, "minlen")
 	raws := rapid.SliceOfN(rawGen, minLen, 80).Draw(t, "steps")
-	return build(dirs, ndirs, raws, ev.SwitchOn(swL2), ev.SwitchOn(swL3))
+	return build(dirs, ndirs, raws, models.KnownSwitch(swL2), models.KnownSwitch(swL3))
 }
 
 // ---- tests -----------------------------------------------------------------
